@@ -35,8 +35,17 @@ type rcase struct {
 	IsValid bool    `json:"is_valid"`
 	Cap     bool    `json:"drep_capability"`
 	Ws      []wspec `json:"withdrawals"`
+	Shape   *shape  `json:"shape,omitempty"` // nil = one input, one output
 	TxHex   string  `json:"tx_hex,omitempty"`
-	Result  string  `json:"result,omitempty"`
+	Result  string  `json:"result,omitempty"`        // through common.VerifyTransaction over the whole era list
+	Direct  string  `json:"result_direct,omitempty"` // the rule function called directly
+}
+
+func (rc rcase) shape() shape {
+	if rc.Shape == nil {
+		return defaultShape
+	}
+	return *rc.Shape
 }
 
 func hash28(i int) []byte {
@@ -56,7 +65,7 @@ func addrBytes(i int, w wspec) []byte {
 }
 
 func buildTx(rc rcase) []byte {
-	kv := baseBody(rc.Era, make([]byte, 32), 200000)
+	kv := shapedBody(rc.Era, rc.shape(), 200000, true)
 	if len(rc.Ws) > 0 {
 		var m []*vh.Item
 		for i, w := range rc.Ws {
@@ -73,11 +82,19 @@ var errLookup = errors.New("delegation lookup failed")
 type lsNoCap struct {
 	common.LedgerState
 	byHash map[string]wspec
+	out    common.TransactionOutput
 }
 
 func (l lsNoCap) IsRewardAccountRegistered(c common.Credential) bool {
 	w, ok := l.byHash[string(c.Credential.Bytes())]
 	return ok && w.Reg
+}
+
+// UtxoById answers every input with a plain 2 ada output, as a real state
+// would for the inputs of a valid transaction (other rules of the list and
+// any lookup layer in front of the ledger state call it).
+func (l lsNoCap) UtxoById(in common.TransactionInput) (common.Utxo, error) {
+	return common.Utxo{Id: in, Output: l.out}, nil
 }
 
 // ... and with it
@@ -162,7 +179,11 @@ func observe(rc *rcase) error {
 			return errors.New("decoded withdrawal address unknown")
 		}
 	}
-	base := lsNoCap{byHash: map[string]wspec{}}
+	dummy, err := babbage.NewBabbageTransactionOutputFromCbor(vh.A(vh.B(enterpriseAddr(make([]byte, 28))), vh.U(2000000)).Enc())
+	if err != nil {
+		return err
+	}
+	base := lsNoCap{byHash: map[string]wspec{}, out: dummy}
 	for i, w := range rc.Ws {
 		base.byHash[string(hash28(i))] = w
 	}
@@ -170,19 +191,35 @@ func observe(rc *rcase) error {
 	if rc.Cap {
 		ls = lsCap{base}
 	}
-	var rules []common.UtxoValidationRuleFunc
-	for _, r := range eraRules(rc.Era) {
-		if _, name, _ := funcInfo(r); strings.Contains(name, "UtxoValidateWithdrawals") {
-			rules = append(rules, r)
-		}
+	isTarget := func(name string) bool { return strings.Contains(name, "UtxoValidateWithdrawals") }
+	pp := c33Pparams(*rc)
+	sh := rc.shape()
+	if len(tx.Inputs()) != sh.Inputs || (len(tx.ReferenceInputs()) != sh.Refs) || len(tx.Collateral()) != sh.Coll ||
+		len(tx.Outputs()) != sh.Outputs || len(tx.Certificates()) != sh.Certs {
+		return fmt.Errorf("decoded shape %d/%d/%d/%d/%d differs from %+v", len(tx.Inputs()), len(tx.ReferenceInputs()), len(tx.Collateral()),
+			len(tx.Outputs()), len(tx.Certificates()), sh)
 	}
-	var verr error
-	if p, v := vh.Recover(func() { verr = common.VerifyTransaction(tx, 1000, ls, c33Pparams(*rc), rules) }); p {
+	// (1) the rule function called directly
+	var derr error
+	if p, v := vh.Recover(func() { derr = directRules(rc.Era, isTarget, tx, 1000, ls, pp) }); p {
 		return fmt.Errorf("withdrawal rule panicked: %v", v)
 	}
+	rc.Direct = classify(derr)
+	// (2) the whole era rule list through common.VerifyTransaction, same ledger state
+	var verr error
+	var targets int
+	if p, v := vh.Recover(func() { verr, targets = projectedVerify(rc.Era, isTarget, tx, 1000, ls, pp) }); p {
+		return fmt.Errorf("VerifyTransaction panicked: %v", v)
+	}
+	if targets == 0 {
+		// the list has no withdrawal rule: nothing was judged (the translator table reports it)
+		verr = nil
+	}
 	rc.Result = classify(verr)
-	if strings.HasPrefix(rc.Result, "foreign:") {
-		return fmt.Errorf("withdrawal rule returned an unexpected error: %s", rc.Result)
+	for _, r := range []string{rc.Result, rc.Direct} {
+		if strings.HasPrefix(r, "foreign:") {
+			return fmt.Errorf("withdrawal rule returned an unexpected error: %s", r)
+		}
 	}
 	return nil
 }
@@ -190,6 +227,13 @@ func observe(rc *rcase) error {
 // monitor: the property text.  Judged only where the text speaks: phase-1-valid,
 // Conway/Dijkstra parameters, all accounts registered, no lookup errors.
 func monitor(c *vh.Ctx, rc rcase) {
+	monitorOne(c, rc, rc.Result, "")
+	if rc.Direct != rc.Result {
+		monitorOne(c, rc, rc.Direct, "direct-call-")
+	}
+}
+
+func monitorOne(c *vh.Ctx, rc rcase, result, prefix string) {
 	if !rc.IsValid || rc.PPKind == "babbage" {
 		return
 	}
@@ -212,27 +256,36 @@ func monitor(c *vh.Ctx, rc rcase) {
 		}
 	}
 	window := rc.PV == 10 || rc.PV == 11
-	where := fmt.Sprintf("pv=%d era=%s pparams=%s withdrawals=%+v result=%s", rc.PV, rc.Era, rc.PPKind, rc.Ws, rc.Result)
+	how := "through VerifyTransaction over the era rule list"
+	if prefix != "" {
+		how = "rule called directly"
+	}
+	where := fmt.Sprintf("pv=%d era=%s pparams=%s shape=%+v withdrawals=%+v result=%s (%s)", rc.PV, rc.Era, rc.PPKind, rc.shape(), rc.Ws, result, how)
 	if !window {
-		if rc.Result != "ROk" {
-			c.Res.Violate("monitor", "delegation-requirement-outside-pv10-11", "a delegation requirement is imposed outside PV10/PV11: "+where, rc)
+		if result != "ROk" {
+			c.Res.Violate("monitor", prefix+"delegation-requirement-outside-pv10-11", "a delegation requirement is imposed outside PV10/PV11: "+where, rc)
 		}
 		return
 	}
 	if !rc.Cap {
-		if anyNonzero && rc.Result != "RUnavailable" {
-			c.Res.Violate("monitor", "state-unavailable-not-reported", "PV10/11, non-zero withdrawal, ledger state cannot answer, but no 'state unavailable' error: "+where, rc)
+		if anyNonzero && result != "RUnavailable" {
+			c.Res.Violate("monitor", prefix+"state-unavailable-not-reported", "PV10/11, non-zero withdrawal, ledger state cannot answer, but no 'state unavailable' error: "+where, rc)
 		}
-		if !anyNonzero && rc.Result != "ROk" {
-			c.Res.Violate("monitor", "zero-amount-withdrawal-gated", "only zero-amount withdrawals, yet rejected: "+where, rc)
+		if !anyNonzero && result != "ROk" {
+			c.Res.Violate("monitor", prefix+"zero-amount-withdrawal-gated", "only zero-amount withdrawals, yet rejected: "+where, rc)
 		}
 		return
 	}
-	if anyKeyUndelegated && rc.Result != "RNotDelegated" {
-		c.Res.Violate("monitor", "undelegated-key-hash-withdrawal-not-rejected", "PV10/11 and a non-zero key-hash withdrawal without DRep delegation, not rejected: "+where, rc)
+	if result == "RUnavailable" {
+		// the state CAN answer (it implements DRepDelegationState)
+		c.Res.Violate("monitor", prefix+"state-unavailable-although-state-answers", "PV10/11: 'state unavailable' reported although the ledger state implements the delegation query: "+where, rc)
+		return
 	}
-	if !anyKeyUndelegated && !anyOtherUndelegated && rc.Result != "ROk" {
-		c.Res.Violate("monitor", "delegated-withdrawal-rejected", "every non-zero withdrawal is delegated (or zero), yet rejected: "+where, rc)
+	if anyKeyUndelegated && result != "RNotDelegated" {
+		c.Res.Violate("monitor", prefix+"undelegated-key-hash-withdrawal-not-rejected", "PV10/11 and a non-zero key-hash withdrawal without DRep delegation, not rejected: "+where, rc)
+	}
+	if !anyKeyUndelegated && !anyOtherUndelegated && result != "ROk" {
+		c.Res.Violate("monitor", prefix+"delegated-withdrawal-rejected", "every non-zero withdrawal is delegated (or zero), yet rejected: "+where, rc)
 	}
 }
 
@@ -241,8 +294,10 @@ func coqCase(rc rcase) string {
 	for _, w := range rc.Ws {
 		ws = append(ws, fmt.Sprintf("(mk_wd %s (%d)%%Z %s %s)", vh.N(uint64(w.Cred)), w.Amount, vh.Bool(w.Reg), vh.N(uint64(w.Deleg))))
 	}
-	return fmt.Sprintf("(%s, %s, %s, %s, %s, %s, %s)", vh.Str(rc.Era), vh.Bool(rc.PPKind != "babbage"), vh.N(rc.PV),
-		vh.Bool(rc.IsValid), vh.Bool(rc.Cap), vh.List(ws), rc.Result)
+	sh := rc.shape()
+	shp := fmt.Sprintf("(mk_shape %d %d %d %d %d)", sh.Inputs, sh.Refs, sh.Coll, sh.Outputs, sh.Certs)
+	return fmt.Sprintf("(%s, %s, %s, %s, %s, %s, %s, %s, %s)", vh.Str(rc.Era), shp, vh.Bool(rc.PPKind != "babbage"), vh.N(rc.PV),
+		vh.Bool(rc.IsValid), vh.Bool(rc.Cap), vh.List(ws), rc.Direct, rc.Result)
 }
 
 func runCase(c *vh.Ctx, cf *vh.CaseFile, rc rcase) {
@@ -260,8 +315,14 @@ func runCase(c *vh.Ctx, cf *vh.CaseFile, rc rcase) {
 		C    uint64
 		D, E bool
 		F    []wspec
-	}{rc.Era, rc.PPKind, rc.PV, rc.IsValid, rc.Cap, rc.Ws})
-	c.Res.Count(string(b), len(rc.Ws) > 0 && rc.IsValid, "pv"+pvc+"/"+rc.Result)
+		G    shape
+	}{rc.Era, rc.PPKind, rc.PV, rc.IsValid, rc.Cap, rc.Ws, rc.shape()})
+	sh := rc.shape()
+	refs := "utxo-refs<8"
+	if sh.Inputs+sh.Refs+sh.Coll >= 8 {
+		refs = "utxo-refs>=8"
+	}
+	c.Res.Count(string(b), len(rc.Ws) > 0 && rc.IsValid, "pv"+pvc+"/"+rc.Result+"/"+refs)
 	if (rc.PV == 10 || rc.PV == 12) && len(rc.Ws) == 1 && rc.Ws[0].Amount > 0 {
 		c.Res.Sample(map[string]any{"era": rc.Era, "pv": rc.PV, "cap": rc.Cap, "withdrawals": rc.Ws, "result": rc.Result})
 	}
@@ -272,7 +333,7 @@ func runCase(c *vh.Ctx, cf *vh.CaseFile, rc rcase) {
 var pvs = []uint64{0, 1, 2, 3, 4, 5, 6, 7, 8, 9, 10, 11, 12, 13, 14, 15, 16, 17, 18, 19, 20, 255, 256, 1 << 31, 1 << 32, 1<<63 - 1, 1 << 63, ^uint64(0)}
 
 func run(c *vh.Ctx) error {
-	c.Res.Rule = "Conway and Dijkstra transactions (CBOR, decoded by the era decoders) x protocol major 0..20 and huge values x pparams type (Conway / Dijkstra / one without ProtocolMajorVersion) x ledger state (no DRep capability / delegated / not delegated / lookup error / unregistered account) x amounts (0, >0) x credential (key hash, script hash, none) x valid / phase-2-invalid; single and multiple withdrawals (at most one error kind per case, since Go map order is arbitrary); distinct by the whole record; non-trivial = phase-1-valid with at least one withdrawal"
+	c.Res.Rule = "Conway and Dijkstra transactions (CBOR, decoded by the era decoders) x protocol major 0..20 and huge values x pparams type (Conway / Dijkstra / one without ProtocolMajorVersion) x ledger state (no DRep capability / delegated / not delegated / lookup error / unregistered account) x amounts (0, >0) x credential (key hash, script hash, none) x valid / phase-2-invalid; single and multiple withdrawals (at most one error kind per case, since Go map order is arbitrary); transaction shape varied independently: inputs / reference inputs / collateral inputs in {0,1,2,7,8,9,16,40}, 1-9 outputs, 0-3 certificates; every case observed twice: rule function called directly, and the whole era rule list through common.VerifyTransaction with the same ledger state (other rules executed, their verdicts discarded); distinct by the whole record; non-trivial = phase-1-valid with at least one withdrawal"
 	c.Res.Modelled = []string{
 		"tx.Withdrawals() is a Go map; the model is a list and the result is proved independent of the order when no lookup errors occur; cases with a lookup error carry no second error kind",
 		"the ledger state is a mock answering IsRewardAccountRegistered and (optionally) DRepDelegation",
@@ -295,6 +356,18 @@ func run(c *vh.Ctx) error {
 		return nil
 	}
 	r := c.Rng
+	// regression corpus: every shape count on each side of the window, delegated and not
+	for _, n := range shapeCounts {
+		for _, pv := range []uint64{9, 10, 11, 12} {
+			for _, deleg := range []int{0, 1} {
+				for k, sh := range []shape{{Inputs: n, Outputs: 1}, {Inputs: 1, Refs: n, Outputs: 2}, {Inputs: 1, Coll: n, Outputs: 1, Certs: 1}} {
+					era := []string{"conway", "dijkstra", "conway"}[k]
+					sh := sh
+					runCase(c, cf, rcase{Era: era, PPKind: era, PV: pv, IsValid: true, Cap: true, Ws: []wspec{{0, 5, true, deleg}}, Shape: &sh})
+				}
+			}
+		}
+	}
 	// systematic grid: every pv x era x capability x single-withdrawal kind
 	for _, pv := range pvs {
 		for _, era := range []string{"conway", "dijkstra"} {
@@ -309,14 +382,15 @@ func run(c *vh.Ctx) error {
 					if !c.Thorough() && pv > 20 && r.Chance(1, 2) {
 						continue
 					}
-					runCase(c, cf, rcase{Era: era, PPKind: ppk, PV: pv, IsValid: true, Cap: cap, Ws: []wspec{w}})
+					sh := genShape(r)
+					runCase(c, cf, rcase{Era: era, PPKind: ppk, PV: pv, IsValid: true, Cap: cap, Ws: []wspec{w}, Shape: &sh})
 				}
 				runCase(c, cf, rcase{Era: era, PPKind: ppk, PV: pv, IsValid: false, Cap: cap, Ws: []wspec{{0, 5, true, 0}}})
 				runCase(c, cf, rcase{Era: era, PPKind: ppk, PV: pv, IsValid: true, Cap: cap})
 			}
 		}
 	}
-	n := c.Pick(500, 8000)
+	n := c.Pick(350, 8000)
 	for i := 0; i < n; i++ {
 		rc := rcase{Era: vh.PickOne(r, []string{"conway", "dijkstra"}), IsValid: !r.Chance(1, 8), Cap: !r.Chance(1, 3)}
 		rc.PPKind = rc.Era
@@ -347,6 +421,8 @@ func run(c *vh.Ctx) error {
 			}
 			rc.Ws = append(rc.Ws, w)
 		}
+		sh := genShape(r)
+		rc.Shape = &sh
 		runCase(c, cf, rc)
 	}
 	cf.Flush()
